@@ -26,6 +26,36 @@ def _lib():
     }
 
 
+_BLK = {}
+
+
+def _blk(variant):
+    """a user-defined two-qubit gate class: every instance is named 'blk' and has no parameters; its unitary (given by __array__)
+    depends on the variant only"""
+    from qiskit.circuit import Gate
+    from qiskit.circuit import library as L
+    if "cls" not in _BLK:
+        class Blk(Gate):
+            def __init__(self, mat):
+                super().__init__("blk", 2, [])
+                self._mat = np.asarray(mat, dtype=complex)
+
+            def __array__(self, dtype=None, copy=None):
+                return self._mat if dtype is None else self._mat.astype(dtype)
+
+            def __eq__(self, other):
+                return isinstance(other, Blk) and np.array_equal(self._mat, other._mat)
+
+            __hash__ = None
+        _BLK["cls"] = Blk
+    mats = {"cx": L.CXGate, "cz": L.CZGate, "swap": L.SwapGate, "iswap": L.iSwapGate, "dcx": L.DCXGate}
+    if variant in mats:
+        m = mats[variant]().to_matrix()
+    else:
+        m = L.RZXGate(float(variant)).to_matrix()
+    return _BLK["cls"](m)
+
+
 def mk_op(name, params=(), label=None):
     """Build a real operation from a canonical (name, params) pair."""
     lib = _lib()
@@ -34,6 +64,8 @@ def mk_op(name, params=(), label=None):
     if name == "barrier":
         from qiskit.circuit import Barrier
         return Barrier(int(params[0]) if params else 1, label=label)
+    if name == "blk":
+        return _blk(str(params[0]) if params else "cx")
     if name == "unitary":
         from qiskit.circuit.library import UnitaryGate
         from qiskit.quantum_info import random_unitary
